@@ -56,3 +56,18 @@ From E Require Import EditDeep.
 Theorem C08_rm_atomic_deep : forall f s segs, failed (snd (m_rm_deep f s segs)) -> fst (m_rm_deep f s segs) = s.
 Proof. exact rm_deep_atomic. Qed.
 Print Assumptions C08_rm_atomic_deep.
+
+(* refusals of the regenerated wrapper traversal (tools/target2v.py) are ValueError and leave the context store as it was: an empty source, several
+   top-level expressions, a top-level expression of a class the traversal does not look through *)
+From Dyn Require Import TargetGen TargetProps.
+Close Scope string_scope. Open Scope list_scope.
+Theorem C08_target_refuses_empty : forall (w : world) fuel s, target_top w fuel [] s = (RErrV, s).
+Proof. exact target_top_refuses_empty. Qed.
+Print Assumptions C08_target_refuses_empty.
+Theorem C08_target_refuses_several : forall (w : world) fuel a b l s, target_top w fuel (a :: b :: l) s = (RErrV, s).
+Proof. exact target_top_refuses_several. Qed.
+Print Assumptions C08_target_refuses_several.
+Theorem C08_target_refuses_other : forall (w : world) f t st c,
+  w_cls w t = COther -> w_scopes w t st = RVal c -> target_top w (S f) [t] ([], st) = (RErrV, ([t], st)).
+Proof. exact target_top_refuses_other. Qed.
+Print Assumptions C08_target_refuses_other.
